@@ -92,13 +92,28 @@ def wellformed_script(max_items=8):
     return st.lists(item, min_size=0, max_size=max_items).map(wire.script_build)
 
 
+def _explicit_push(enc, data):
+    if enc == 0 and 1 <= len(data) <= 75:
+        return bytes([len(data)]) + data
+    n = {0: 1, 1: 1, 2: 2, 4: 4}[enc]
+    return bytes([{1: 0x4c, 2: 0x4d, 4: 0x4e}[n]]) + len(data).to_bytes(n, 'little') + data
+
+
+def explicit_push_script(max_items=4):
+    """Push-well-formed scripts whose pushes use every encoding consensus allows (direct, OP_PUSHDATA1/2/4), also
+    where a shorter encoding exists: the bytes must survive parsing and re-serialisation as they are."""
+    push = st.builds(_explicit_push, st.sampled_from([0, 1, 2, 4]), st.binary(min_size=0, max_size=40))
+    op = st.sampled_from([0x51, 0x6a, 0x75, 0x87, 0xac]).map(lambda b: bytes([b]))
+    return st.lists(st.one_of(push, push, op), min_size=1, max_size=max_items).map(b''.join)
+
+
 def one_byte_scripts():
     return st.integers(0, 255).map(lambda b: bytes([b]))
 
 
 def any_script(allow_junk=True):
     alts = [standard_spk(), standard_spk(), wellformed_script(), pushonly_script(), st.just(b''),
-            one_byte_scripts()]
+            one_byte_scripts(), explicit_push_script()]
     if allow_junk:
         alts.append(st.binary(min_size=1, max_size=60))
     return st.one_of(*alts)
